@@ -421,7 +421,7 @@ func genPeerSpecs(rt *rapid.T, n int, prof scriptProfile) ([]world.PeerSpec, []s
 		p := world.PeerSpec{Remote: fmt.Sprintf("10.0.0.%d", 2+i), LocalAS: 64512, RemoteAS: uint32(64600 + i), Hold: 90,
 			IdleHoldMs: pick(rt, "idle", 1000, 5000), ConnRetryMs: pick(rt, "retry", 2000, 5000)}
 		if prof.holdShort {
-			p.Hold = pick(rt, "hold", 3, 6, 9, 90)
+			p.Hold = pick(rt, "hold", 3, 6, 9, 90, 0)
 		}
 		p.Passive = rapid.IntRange(0, 3).Draw(rt, "passive") == 0
 		if prof.sleeps && rapid.IntRange(0, 4).Draw(rt, "sleeps") == 0 {
